@@ -14,15 +14,15 @@ import (
 var plain = map[string]func(c Config) (func([]C) []C, int){
 	"Apo": func(c Config) (func([]C) []C, int) {
 		a := trend.NewApo[float64]()
-		return func(in []C) []C { return o1(a.Compute(in[0])) }, c.P[1] - 1
+		return func(in []C) []C { return o1(a.Compute(in[0])) }, declared(a, c.P[1] - 1)
 	},
 	"Aroon": func(c Config) (func([]C) []C, int) {
 		a := trend.NewAroon[float64]()
-		return func(in []C) []C { return o2(a.Compute(in[0], in[1])) }, c.P[0] - 1
+		return func(in []C) []C { return o2(a.Compute(in[0], in[1])) }, declared(a, c.P[0] - 1)
 	},
 	"Bop": func(c Config) (func([]C) []C, int) {
 		a := trend.NewBop[float64]()
-		return func(in []C) []C { return o1(a.Compute(in[0], in[1], in[2], in[3])) }, 0
+		return func(in []C) []C { return o1(a.Compute(in[0], in[1], in[2], in[3])) }, declared(a, 0)
 	},
 	"Cci": func(c Config) (func([]C) []C, int) {
 		a := trend.NewCci[float64]()
@@ -90,7 +90,7 @@ var plain = map[string]func(c Config) (func([]C) []C, int){
 	},
 	"TypicalPrice": func(c Config) (func([]C) []C, int) {
 		a := trend.NewTypicalPrice[float64]()
-		return func(in []C) []C { return o1(a.Compute(in[0], in[1], in[2])) }, 0
+		return func(in []C) []C { return o1(a.Compute(in[0], in[1], in[2])) }, declared(a, 0)
 	},
 	"Vwma": func(c Config) (func([]C) []C, int) {
 		a := trend.NewVwma[float64]()
